@@ -68,6 +68,11 @@ for _v in ("v5", "v7"):
 reg(["C13"], H("fixed::error_common", unwind=3, timeout=300, mem_gb=2,
     desc="Error packet converts to Err", bounds={}))
 
+for _v, _rec in (("v5", 48), ("v7", 52)):
+    reg(["C03", "C02", "C01"], H("fixed::%s_count_around_30" % _v, unwind=35, loops=[(r"fixed::|nfv5fixed", 1700)], timeout=2400, mem_gb=20, fs=2048,
+        desc="%s::parse with header.count symbolic in 29..=33 over 33 patterned records: decoded records == count, packet ends at 24+%d*count" % (_v.upper(), _rec),
+        bounds={"count": "29..=33 (symbolic)", "record_bytes": "fixed pattern (concrete)"}))
+
 
 # ---------------------------------------------------------------- K: field kernels
 _KB = {"declared_length": "all 65536 values", "available_bytes": "0..=MAXB (symbolic)", "byte_values": "all"}
@@ -107,7 +112,7 @@ for _nm, _shape, _tier in (("2f", "1 record x 2 fields", "quick"), ("1f_pad3", "
                           ("1f_0f_1f", "3 records with 1,0,1 fields", "thorough"),
                           ("1f_trunc", "1 complete record + a record header announcing 9 fields with 2 bytes left", "quick"),
                           ("only_trunc", "no complete record: header announcing 9 fields + 1 byte", "thorough")):
-    reg(["C04", "C06", "C01"], H("s9::s_v9_template_" + _nm, unwind=5, timeout=1500, mem_gb=12, tier=_tier,
+    reg(["C04", "C06", "C01"], H("s9::s_v9_template_" + _nm, unwind=5, loops=[(r"many0::<&\[u8\], u8", 9)], timeout=1500, mem_gb=12, tier=_tier,
         desc="v9::FlowSet::parse, template flowset shape [%s] vs a symbolic one-entry cache: records as sent, padding, consumption, cache post-state (last wins, others untouched, incomplete record ignored)" % _shape,
         bounds={"shape": _shape + " (written)", "symbolic": "template ids, field types/lengths, padding bytes, cached entry, probe id"}))
 for _nm, _shape, _tier in (("1_1", "1 scope + 1 option field + 2 padding", "quick"), ("2_0", "2 scope fields", "thorough"), ("0_2", "2 option fields + 3 padding", "thorough")):
@@ -158,16 +163,19 @@ reg(["C02"], H("w::w_empty", unwind=5, timeout=300, mem_gb=4,
 
 # ---------------------------------------------------------------- S/T/D: IPFIX
 _D10 = "ipfix::Data::parse / OptionsData::parse replaced by models exact on the harness domain (every cached field fixed-length >= 8, body <= 7 bytes => first field read fails => Err)"
-reg(["C05", "C06", "C01"], H("s10::s_ipfix_template", unwind=5, timeout=1500, mem_gb=12,
-    desc="ipfix::FlowSet::parse, template set with one record (<=2 plain/enterprise specifiers, <=3 padding bytes) vs symbolic one-entry cache: record as sent incl. enterprise numbers, padding, cache post-state; refused set leaves cache unchanged",
-    bounds={"body_bytes": "<=20 (symbolic length)", "records": 1, "fields": "<=2", "cached_templates": 1}))
+for _nm, _shape, _tier in (("1p_pad3", "1 plain specifier + 3 padding bytes", "quick"), ("2p", "2 plain specifiers", "thorough"),
+                          ("e_p", "enterprise + plain specifier + 2 padding bytes", "quick"), ("p_e", "plain + enterprise specifier", "thorough")):
+    reg(["C05", "C06", "C01"], H("s10::s_ipfix_template_" + _nm, unwind=5, timeout=1500, mem_gb=12, tier=_tier,
+        desc="ipfix::FlowSet::parse, template set shape [%s] vs symbolic one-entry cache: record as sent incl. enterprise numbers, padding, cache post-state (replace/add, other entry untouched); refused set leaves cache unchanged" % _shape,
+        bounds={"shape": _shape + " (written)", "symbolic": "template id, ie ids, field lengths, enterprise numbers, padding bytes, cached entry"}))
 reg(["C05"], H("s10::s_ipfix_template_two_records_kf", unwind=5, timeout=900, mem_gb=8, expect="fail", finding="C05-multi-record-template-set",
     desc="finding witness: template set with two records", bounds={"records": 2}))
 reg(["C06"], H("s10::s_ipfix_template_short_record_kf", unwind=5, timeout=900, mem_gb=8, expect="fail", finding="C06-ipfix-truncated-template-cached",
     desc="finding witness: template record announcing more specifiers than present is cached", bounds={"field_count": 2, "specifiers_present": 1}))
-reg(["C05", "C06", "C01"], H("s10::s_ipfix_options_template", unwind=5, timeout=1500, mem_gb=12,
-    desc="ipfix::FlowSet::parse, options-template set with one record (<=2 specifiers): record as sent, cached",
-    bounds={"body_bytes": "<=20 (symbolic length)", "fields": "<=2", "scope_count": "<= field_count"}))
+for _nm, _shape, _tier in (("2_1", "2 plain specifiers, scope count 1, 2 padding bytes", "quick"), ("1_1_e", "1 enterprise specifier, scope count 1", "thorough")):
+    reg(["C05", "C06", "C01"], H("s10::s_ipfix_options_template_" + _nm, unwind=5, timeout=1500, mem_gb=12, tier=_tier,
+        desc="ipfix::FlowSet::parse, options-template set shape [%s]: record as sent, cached" % _shape,
+        bounds={"shape": _shape + " (written)", "symbolic": "template id, ie ids, field lengths, enterprise numbers, padding bytes"}))
 reg(["C06", "C07", "C01"], H("s10::s_ipfix_data_dispatch", unwind=5, timeout=1200, mem_gb=10,
     desc="ipfix::FlowSet::parse, data set id 300 vs symbolic cached ids: unknown id never reaches a decoder, caches unchanged",
     bounds={"body_bytes": "<=7", "cached": "1 template + 1 options template, symbolic ids"}, assumptions=[_D10]))
@@ -242,14 +250,14 @@ reg(["C13", "C01"], H("cv::cv_flowsets_concat", unwind=4, timeout=2400, mem_gb=3
 
 # ---------------------------------------------------------------- end-to-end histories
 _E = {"structure": "written (versions, lengths, counts, field type 1 / length 2)", "symbolic": "template id, data set id, header words, data bytes"}
-reg(["C06", "C07", "C11", "C05", "C01"], H("e2e::e2e_ipfix_chained", unwind=6, timeout=3000, mem_gb=30,
+reg(["C06", "C07", "C11", "C05", "C01"], H("e2e::e2e_ipfix_chained", unwind=6, timeout=3000, mem_gb=30, mem_est=20, tier="thorough",
     desc="parse_bytes(template message || data message), real IPFIX decoder: packet 2 decoded with the template learned from packet 1 (same parser for the tail); undefined id => set omitted; V9 cache untouched",
     bounds=dict(_E, bytes=52, packets=2, records=2), assumptions=[_K9]))
 reg(["C06", "C11"], H("e2e::e2e_ipfix_split", unwind=6, timeout=3000, mem_gb=30, tier="thorough",
     desc="same history delivered in two parse_bytes calls gives the same results", bounds=dict(_E, bytes=52, packets=2), assumptions=[_K9]))
 reg(["C06", "C07"], H("e2e::e2e_ipfix_two_parsers", unwind=6, timeout=3000, mem_gb=30, tier="thorough",
     desc="template learned by one parser instance is invisible to another", bounds=dict(_E, bytes=52), assumptions=[_K9]))
-reg(["C06", "C07", "C11", "C04", "C01"], H("e2e::e2e_v9_chained", unwind=6, timeout=3000, mem_gb=30,
+reg(["C06", "C07", "C11", "C04", "C01"], H("e2e::e2e_v9_chained", unwind=6, timeout=3000, mem_gb=30, mem_est=20, tier="thorough",
     desc="parse_bytes(V9 template packet || V9 data packet): data decoded with the template from packet 1; undefined id => Error element carrying packet 2; IPFIX cache untouched",
     bounds=dict(_E, bytes=60, packets=2, records=2), assumptions=[_K9]))
 reg(["C06", "C11"], H("e2e::e2e_v9_split", unwind=6, timeout=3000, mem_gb=30, tier="thorough",
